@@ -85,7 +85,7 @@ func (m *hllRedis) Exec(op Tok) (opOut Tok, obs Tok) {
 			idx, cnt := gx.VerifHLLRedisIndexCount(h, a[2].B)
 			m.orc.add(key, []uint64{p}, a[2].B, []uint64{idx, cnt})
 		}
-		if err := h.Update(a[2].B); err != nil {
+		if err := h.Update(el(a[2].B)); err != nil {
 			return opOut, TErr(errGeneric)
 		}
 		return opOut, TOk(TUnit())
